@@ -36,6 +36,43 @@ func (c CollectionEvent) Name() string {
 	return PubSubCollectionEventName
 }
 
+// UnmarshalXML decodes the <associate/> or <disassociate/> child into the AssocDisassoc field, which
+// encoding/xml cannot do by itself for an interface-typed field.
+func (c *CollectionEvent) UnmarshalXML(d *xml.Decoder, start xml.StartElement) error {
+	c.XMLName = start.Name
+	for _, attr := range start.Attr {
+		if attr.Name.Local == "node" {
+			c.Node = attr.Value
+		}
+	}
+	for {
+		t, err := d.Token()
+		if err != nil {
+			return err
+		}
+		switch tt := t.(type) {
+		case xml.StartElement:
+			switch tt.Name.Local {
+			case "associate":
+				a := AssociateEvent{}
+				err = d.DecodeElement(&a, &tt)
+				c.AssocDisassoc = &a
+			case "disassociate":
+				dis := DisassociateEvent{}
+				err = d.DecodeElement(&dis, &tt)
+				c.AssocDisassoc = &dis
+			default:
+				err = d.Skip()
+			}
+			if err != nil {
+				return err
+			}
+		case xml.EndElement:
+			return nil
+		}
+	}
+}
+
 // *********************
 // Associate/Disassociate
 // *********************
